@@ -1623,7 +1623,8 @@ class zip(Stream):
 
     def _remove_upstream(self, upstream):
         # Override method to handle removal of buffer for stream
-        self.buffers.pop(upstream)
+        for _, metadata in self.buffers.pop(upstream):
+            self._release_refs(metadata)
         super(zip, self)._remove_upstream(upstream)
 
     def pack_literals(self, tup):
@@ -1717,7 +1718,9 @@ class combine_latest(Stream):
                                "``node.emit_on=tuple(node.upstreams)`` to "
                                "emit on all incoming data")
         self.last.pop(self.upstreams.index(upstream))
-        self.metadata.pop(self.upstreams.index(upstream))
+        dropped = self.metadata.pop(self.upstreams.index(upstream))
+        if dropped:
+            self._release_refs(dropped)
         self.missing.discard(upstream)
         super(combine_latest, self)._remove_upstream(upstream)
         if self._initial_emit_on is None:
